@@ -146,6 +146,46 @@ Theorem C17_blob_push_refines_spec :
 Proof. exact blob_push_tok_refines_spec. Qed.
 Print Assumptions C17_blob_push_refines_spec.
 
+(* --- the same refinements under cancellation ----------------------------------------------- *)
+
+(* for EVERY context (never ending, ending at any instant, over before the call): the transport
+   computes spec_send_c, whose attempts are cut short by the context and whose pauses end the
+   call with the context's error exactly as the specification says *)
+Theorem C17_round_trip_refines_spec_c :
+  forall p cn bd sc t,
+    wf_body bd -> replayable bd ->
+    let out := round_trip p cn bd (init_state bd) sc t in
+    (o_res out, o_time out, attempts (o_trace out)) = spec_send_c p cn bd sc t.
+Proof. exact round_trip_refines_spec_c. Qed.
+Print Assumptions C17_round_trip_refines_spec_c.
+
+Theorem C17_auth_refines_spec_c :
+  forall p cn bd sc tb tsc t0,
+    wf_body bd -> replayable bd -> wf_body tb -> replayable tb ->
+    let a := auth_do_tok_at p cn bd sc tb tsc t0 in
+    (ak_res a, ak_time a, attempts (ak_first a), attempts (ak_token a), attempts (ak_second a))
+    = spec_auth_at_c p cn bd sc tb tsc t0.
+Proof. exact auth_do_tok_at_refines_spec_c. Qed.
+Print Assumptions C17_auth_refines_spec_c.
+
+Theorem C17_auth_warm_refines_spec_c :
+  forall p cn bd sc tb tsc t0,
+    wf_body bd -> replayable bd -> wf_body tb -> replayable tb ->
+    let a := auth_do_tokw_at p cn bd sc tb tsc t0 in
+    (aw_res a, aw_time a, attempts (aw_first a), attempts (aw_second a), attempts (aw_token a), attempts (aw_third a))
+    = spec_authw_at_c p cn bd sc tb tsc t0.
+Proof. exact auth_do_tokw_at_refines_spec_c. Qed.
+Print Assumptions C17_auth_warm_refines_spec_c.
+
+Theorem C17_blob_push_refines_spec_c :
+  forall authc p cn bd sc tb tsc,
+    wf_body bd -> replayable bd -> wf_body tb -> replayable tb ->
+    let u := blob_push_tok authc p cn bd sc tb tsc in
+    (uk_res u, uk_time u, show_authk (uk_post u), option_map show_authk (uk_put u))
+    = spec_push_c authc p cn bd sc tb tsc.
+Proof. exact blob_push_tok_refines_spec_c. Qed.
+Print Assumptions C17_blob_push_refines_spec_c.
+
 (* --- bodies ---------------------------------------------------------------- *)
 
 (* on attempt i the registry receives exactly what it reads of the complete original
@@ -547,6 +587,25 @@ Theorem C17_acceptor_complete :
 Proof. exact accept_decision_complete. Qed.
 Print Assumptions C17_acceptor_complete.
 
+(* ... and it is sound up to its allowances: a pause it accepts (for MinWait <= MaxWait) is the
+   clamp of a value that is the Retry-After delay exactly, or lies within the float64 rounding
+   allowances tol_a, tol_n of the model's exact range [a, a + max(n, 0)] (a = trunc(temp*(1-jitter)),
+   n = trunc(2*jitter*temp)) -- so a pause farther than that from everything the model can produce
+   is rejected *)
+Theorem C17_acceptor_sound :
+  forall guarded maxretry minw maxw e attempt o d,
+    minw <= maxw ->
+    accept_decision guarded maxretry minw maxw e attempt o (ODWait d) = VYes ->
+    attempt < maxretry /\ default_predicate o = PRetry /\
+    exists x, d = clamp minw maxw x /\
+      ((generated_backoff_retry_after_ok (retry_after_secs o) = true /\
+        x = wrap64 (retry_after_secs o * generated_backoff_retry_after_unit)) \/
+       (generated_backoff_retry_after_ok (retry_after_secs o) = false /\
+        qtrunc (exp_a e attempt) - tol_a e attempt <= x <=
+        qtrunc (exp_a e attempt) + Z.max 0 (qtrunc (exp_n e attempt)) + tol_a e attempt + tol_n e attempt)).
+Proof. exact accept_decision_sound. Qed.
+Print Assumptions C17_acceptor_sound.
+
 (* --- the hypotheses are satisfiable: concrete runs ---------------------------------- *)
 
 Definition ex_policy := table_policy default_predicate 3 100 1000 [50; 5000] 7.
@@ -578,6 +637,12 @@ Proof. vm_compute. repeat split; reflexivity. Qed.
 Example ex_spec :
   spec_send ex_policy ex_body ex_script 0
   = (RResp 200 0%N, 1134, [(0, b "manifest"); (110, b "man"); (1130, b "manifest")]).
+Proof. vm_compute. reflexivity. Qed.
+
+(* the specification under a context ending at 151: cut in the second pause *)
+Example ex_spec_cancel :
+  spec_send_c ex_policy (Some (151, false)) ex_body ex_script 0
+  = (RCtx, 151, [(0, b "manifest"); (110, b "man")]).
 Proof. vm_compute. reflexivity. Qed.
 
 (* cancelled in the second pause *)
@@ -674,6 +739,12 @@ Example ex_blob_push_tok :
   uk_res u = RResp 201 0%N /\ length (attempts (ak_token (uk_post u))) = 2%nat /\
   match uk_put u with Some put => map snd (authk_attempts put) = [b "manifest"; b "manifest"] | None => False end.
 Proof. vm_compute. repeat split; reflexivity. Qed.
+
+(* the acceptor: default backoff at attempt 2 (temp = 1 s): 950 ms is accepted, 2 s is not *)
+Example ex_acceptor :
+  accept_decision true 5 0 100000000000 default_eparams 2 (OStatus 503 [] 0%N) (ODWait 950000000) = VYes /\
+  accept_decision true 5 0 100000000000 default_eparams 2 (OStatus 503 [] 0%N) (ODWait 2000000000) = VNo.
+Proof. vm_compute. split; reflexivity. Qed.
 
 (* Retry-After: 2 within [100ns, 3s]: honoured *)
 Example ex_retry_after :
